@@ -42,10 +42,10 @@ func vfRootSeq() func(branch string, i int) []byte {
 var vfErrExec = errors.New("vf: block execution failed")
 
 // C07.b (chain side) and C07.d at position 0, through the real ChainService.reorg with nothing replaced:
-// - vetoed by consensus (fork point below the LIB): reorg returns consensus.ErrorConsensus before rollback: no SetRoot,
-//   no consensus Update, no block execution, not a single KV write, best block unchanged;
-// - not vetoed: rollback + rollforward run; the real executeBlock rejects the first new block (the consensus stub's
-//   IsBlockValid fails), reorg returns that error before swapChain: not a single KV write, indexes and best unchanged.
+//   - vetoed by consensus (fork point below the LIB): reorg returns consensus.ErrorConsensus before rollback: no SetRoot,
+//     no consensus Update, no block execution, not a single KV write, best block unchanged;
+//   - not vetoed: rollback + rollforward run; the real executeBlock rejects the first new block (the consensus stub's
+//     IsBlockValid fails), reorg returns that error before swapChain: not a single KV write, indexes and best unchanged.
 func VF_C07_b() {
 	a, f, b := vfShape(vf.Param("maxA", 2), vf.Param("maxExtra", 1))
 	u := vfBuild(a, b, f, vfTxRange(vf.Param("minTx", 0), vf.Param("maxTx", 0)), vfRootSeq())
